@@ -139,24 +139,29 @@ def step (s : St) (l : Line) : St × Verdict :=
       else if bef ≠ "before=1" then (s, .specFail "C04.chunks" s!"size={sz}: the command using the file is queued before its chunks")
       else if lens ≠ wantS then (s, .diff wantS) else (s, .ok)
     | _, _, _ => (s, .bad "chunks args")
-  | "conc", [_id, np, each] =>
+  | "conc", _id :: np :: each :: rest =>
     -- real goroutines: `np` producers queue `each` tasks tagged <producer>.<seq> while the listener side checks in
     -- until everything is out.  Spec (C04.fifo_all_schedules): whatever the schedule, every task is handed out
     -- exactly once and every producer's tasks come out in the order that producer queued them; every queued task
-    -- has its request id on record (C05's gate relies on it).
-    match np.toNat?, each.toNat?, l.impl with
-    | some p, some k, [tasks, ds] =>
+    -- has its request id on record (C05's gate relies on it).  An optional fourth argument: that many tasks for a
+    -- pivot below the agent, queued by one more producer; their wrappers (tag 0.0) must all come out, once each.
+    match np.toNat?, each.toNat?, (rest.head?.bind String.toNat?).getD 0, l.impl with
+    | some p, some k, pv, [tasks, ds] =>
       match parseTagged ds with
       | none => (s, .bad "conc: delivered list")
-      | some got =>
+      | some gotAll =>
+        let got := gotAll.filter (fun x => x.1 != 0)
+        let wrappers := (gotAll.filter (fun x => x.1 == 0)).length
         let perProducerOk := (List.range p).all fun i =>
           (got.filter (fun x => x.1 == i + 1)).map (·.2) == List.range k
         if got.length ≠ p * k || !perProducerOk then
           (s, .specFail "C04.concurrent" (concWhy p k got))
+        else if wrappers ≠ pv then
+          (s, .specFail "C04.concurrent" s!"{pv} tasks were queued for the pivot agent while the parent was tasked and checked in; {wrappers} wrapped tasks were handed out")
         else if tasks ≠ s!"tasks={p * k}" then
           (s, .specFail "C04.concurrent" s!"{p * k} tasks were queued concurrently but the request-id record holds {tasks}")
         else (s, .ok)
-    | _, _, imp => (s, .specFail "C04.concurrent" s!"concurrent producers and check-ins ended with {(joinSp imp).take 160}")
+    | _, _, _, imp => (s, .specFail "C04.concurrent" s!"concurrent producers and check-ins ended with {(joinSp imp).take 160}")
   | op, _ => (s, .bad s!"unknown op {op}")
 
 end Havoc.DriverC04
